@@ -199,6 +199,113 @@ pub fn run_pair(prop: &str, pc: &PairCase, r: &mut Report) {
     r.merge(tmp);
 }
 
+/// Many builders at once on DIFFERENT threads.  All threads of a round are released together by a barrier and each drives
+/// its own builder through its own word; the custom claim names of a round carry the round number, so every round presents
+/// names that the process has never seen before to all threads at the same moment (a process-wide table of names, a lazily
+/// initialised cache, a check-then-insert under two different locks would be raced exactly here).  Each builder is judged
+/// as if it were alone.
+#[derive(Clone, Debug, Serialize, Deserialize)]
+pub struct ConcCase {
+    /// one base case per thread (custom names WITHOUT the round suffix)
+    pub threads: Vec<Case>,
+    pub rounds: usize,
+}
+
+fn with_round_names(ops: &[BOp], round: usize) -> Vec<BOp> {
+    ops.iter()
+        .map(|o| match o {
+            BOp::Set(Claim::Custom(k, v)) if !["iss", "sub", "aud", "exp", "nbf", "iat", "jti"].contains(&k.as_str()) => BOp::Set(Claim::Custom(format!("{}~{}", k, round), v.clone())),
+            o => o.clone(),
+        })
+        .collect()
+}
+
+/// `gen(round, thread)` supplies the base case of a thread in a round; returns the merged report
+fn run_concurrent<G>(prop: &str, nthreads: usize, rounds: usize, first_round: usize, gen: G) -> Report
+where
+    G: Fn(usize, usize) -> Case + Sync,
+{
+    let barrier = std::sync::Barrier::new(nthreads);
+    let mut out = Report::new();
+    std::thread::scope(|s| {
+        let mut hs = Vec::new();
+        for t in 0..nthreads {
+            let (barrier, gen) = (&barrier, &gen);
+            hs.push(s.spawn(move || {
+                let mut r = Report::new();
+                for round in first_round..first_round + rounds {
+                    let base = gen(round, t);
+                    let c = Case { p: base.p, key: base.key.clone(), ops: with_round_names(&base.ops, round) };
+                    barrier.wait();
+                    // the monitored calls; a panic inside must not leave the other threads waiting at the barrier
+                    let run = std::panic::catch_unwind(std::panic::AssertUnwindSafe(|| run_word(&c)));
+                    let run = match run {
+                        Ok(run) => run,
+                        Err(_) => {
+                            r.inconclusive.push(format!("concurrent round {} thread {}: panic outside a monitored call", round, t));
+                            continue;
+                        }
+                    };
+                    let mut tmp = Report::new();
+                    if prop == "C13" {
+                        check_c13(&c, &run, &mut tmp)
+                    } else {
+                        check_c17(&c, &run, &mut tmp)
+                    }
+                    let clocky = tmp.violation_sigs.keys().any(|k| k.contains("default-iat-wrong") || k.contains("default-nbf-wrong") || k.contains("default-lifetime-wrong"));
+                    if clocky {
+                        // a clock step cannot raise an alarm: the verdict must show again on a fresh execution of this word alone
+                        let mut again = Report::new();
+                        judge(prop, &c, &mut again);
+                        if again.violations_total == 0 {
+                            r.discard("clock-dependent verdict of a concurrent round not re-established on a fresh execution");
+                            continue;
+                        }
+                    }
+                    // the per-round names would make every word distinct: signatures use the base word
+                    tmp.distinct.clear();
+                    let n = tmp.violations.len();
+                    for v in tmp.violations.iter_mut() {
+                        v.sig = format!("{} [concurrent builders]", v.sig);
+                        v.desc = format!("with {} builders driven at once on {} threads (round {}, thread {}, released together by a barrier; custom names first seen in this round): {}", nthreads, nthreads, round, t, v.desc);
+                        v.replay = json!({"cmd": format!("{}-conc", prop), "case": ConcCase { threads: (0..nthreads).map(|u| gen(round, u)).collect(), rounds: 4000 }});
+                    }
+                    let sigs: Vec<(String, u64)> = tmp.violation_sigs.iter().map(|(k, v)| (format!("{} [concurrent builders]", k), *v)).collect();
+                    tmp.violation_sigs = sigs.into_iter().collect();
+                    if n == 0 && tmp.violations_total == 0 {
+                        r.count("concurrent builders conform");
+                        r.distinct(format!("conc|{}|{}|{}", base.p.name(), nthreads, word_string(&base.ops)));
+                    }
+                    r.merge(tmp);
+                }
+                r
+            }));
+        }
+        for h in hs {
+            match h.join() {
+                Ok(r) => out.merge(r),
+                Err(_) => out.inconclusive.push("a concurrent-builder worker thread died outside a monitored call".into()),
+            }
+        }
+    });
+    out
+}
+
+pub fn replay_conc(prop: &str, case: &Value) -> Report {
+    let mut r = Report::new();
+    match serde_json::from_value::<ConcCase>(case.clone()) {
+        Ok(c) if !c.threads.is_empty() => {
+            // fresh names every round: the recorded round cannot be re-entered (its names are only new once per process),
+            // so the same words are driven for `rounds` further rounds
+            let n = c.threads.len();
+            r.merge(run_concurrent(prop, n, c.rounds.min(100_000), 1_000_000, |_, t| c.threads[t].clone()));
+        }
+        Ok(_) => r.inconclusive.push("replay case has no threads".into()),
+        Err(e) => r.inconclusive.push(format!("cannot decode replay case: {}", e)),
+    }
+    r
+}
+
 /// model state after the first `upto` ops
 struct Model {
     supplied: BTreeMap<String, Vec<Value>>,
@@ -684,6 +791,35 @@ pub fn run(prop: &str, tier: &str, seed: u64) -> Report {
         total.merge(r);
         total.require("interleaved builder pairs conform", (npairs / 2) as u64);
     }
+    // builders on DIFFERENT threads at the same moment (barrier-released rounds, names new to the process in every round)
+    {
+        let nthreads = util::threads().clamp(2, 8);
+        let rounds = if thorough { 60_000 } else { 4_000 };
+        // the custom-claim symbols of the alphabet (names a process-wide table would have to learn)
+        let customs: Vec<usize> = if prop == "C13" { vec![4, 8, 9, 10] } else { vec![7, 8, 11, 12, 13] };
+        let r = run_concurrent(prop, nthreads, rounds, 0, |round, t| {
+            let mut rng = Rng::new(seed, "c13-conc", ((round as u64) << 8 | t as u64) << 1 | (prop == "C17") as u64);
+            // mostly the fast protocols, so that the threads stay in step; each thread picks its own
+            let p = if rng.chance(1, 64) { ALL[rng.below(ALL.len())] } else { [P::V4L, P::V4L, P::V2L, P::V4P, P::V3L][rng.below(5)] };
+            let p = if p == P::V1P && round % 16 != 0 { P::V4L } else { p };
+            let len = 1 + rng.below(7);
+            // half of the setters are custom claims: repeated and fresh names both occur within one short word
+            let mut syms: Vec<usize> = (0..len).map(|_| if rng.chance(1, 7) { k - 1 } else if rng.chance(1, 2) { customs[rng.below(customs.len())] } else { rng.below(k - 1) }).collect();
+            // every second round ALL threads open with the same new name (maximal contention on whatever learns names), and
+            // half of them supply it a second time later in the word
+            if round % 2 == 1 {
+                let c = customs[(round / 2) % customs.len()];
+                syms.insert(0, c);
+                if rng.chance(1, 2) {
+                    let at = 1 + rng.below(syms.len());
+                    syms.insert(at, c);
+                }
+            }
+            Case { p, key: pools.key(p, t % pools.count(p)), ops: syms_to_ops(prop, &syms) }
+        });
+        total.merge(r);
+        total.require("concurrent builders conform", (rounds * nthreads / 2) as u64);
+    }
     // builders created at MANY instants of the virtual clock: defaults must be exactly (now+1h, now, now)
     if prop == "C13" {
         let mut vn: Vec<i128> = [1i128, 951_865_199, 951_868_799, 978_303_600, 978_307_199, 2_147_480_048, 2_147_483_647, 4_102_441_200, 4_102_444_799, 9_223_368_436, 9_223_372_036, 32_503_676_400, 221_845_388_399]
@@ -781,5 +917,5 @@ pub fn replay_pair(prop: &str, case: &Value) -> Report {
     r
 }
 
-pub const RULE_C13: &str = "call words over {set exp, set nbf, set iat, set iss, set custom a, set custom 'Exp' / 'IAT' / 'Nbf' (custom claims that equal a time claim up to case), an attempt to set a custom claim named exactly exp (null) or nbf (refused by the constructor in both forms: must leave no trace), acknowledge, set_footer, set_implicit_assertion, build} (a final build is appended to words that do not end in one): ALL words up to length 4 (thorough 6) on v4.local, seeded random words up to length 12 on all 8 protocols; plus 614 (thorough 20014) builders created at instants of a VIRTUAL clock (hook verif::set_now: year/leap-day boundaries, the last and first second of a minute / hour / day / month / year, 2^31 s, the i64-ns limit, up to year 8999, random, odd sub-second parts) whose defaults must be exactly (now+1h, now, now). Plus 3000 (thorough 40000) PAIRS of builders (same or different protocols) alive at once on one thread with their operations interleaved in a seeded order: each must behave exactly as if it were alone. Every token of every successful build (first and later builds of one builder) is read back and compared with a state machine written from the property: exp present iff not acknowledged; default exp == creation + 3600.000000000 s, default iat == default nbf within the clock bracket taken around the run (5 ms slack); caller-supplied exp/iat/nbf values present. distinct_nontrivial = distinct (protocol, word, build number) that built and conformed; caller-supplied instants lie on both sides of the creation time and of creation + 1 h";
-pub const RULE_C17: &str = "call words over {set_claim(k) for k in exp,nbf,iat,iss,sub,aud,jti,a,b,userId,Role,role; acknowledge; set_footer; build} (a final build appended): ALL words up to length 4 (thorough 5) on v4.local, seeded random words up to length 40 on all 8 protocols; 3000 (thorough 40000) PAIRS of builders (same or different protocols) alive at once on one thread with their operations interleaved in a seeded order, each judged as if alone; every occurrence of a setter uses a different value. Plus ~45 pairs of DIFFERENT custom keys that collide under FNV-1/1a, the 31-multiplier hash, djb2, CRC-32, byte sums, truncation (8..256 bytes, u8/u16 characters), NFC/NFD or an embedded NUL: setting both is not a repetition, setting one of them again is; 255/256/257/600 distinct keys on one builder, then one of them again. Model: once any key has been supplied twice every build must fail with the duplicate-claim error naming one of the duplicated keys; otherwise every build must succeed and carry the caller's values; exp supplied after the acknowledgement may be refused as duplicate or ignored. distinct_nontrivial = distinct (protocol, word, build number, outcome class)";
+pub const RULE_C13: &str = "call words over {set exp, set nbf, set iat, set iss, set custom a, set custom 'Exp' / 'IAT' / 'Nbf' (custom claims that equal a time claim up to case), an attempt to set a custom claim named exactly exp (null) or nbf (refused by the constructor in both forms: must leave no trace), acknowledge, set_footer, set_implicit_assertion, build} (a final build is appended to words that do not end in one): ALL words up to length 4 (thorough 6) on v4.local, seeded random words up to length 12 on all 8 protocols; plus 614 (thorough 20014) builders created at instants of a VIRTUAL clock (hook verif::set_now: year/leap-day boundaries, the last and first second of a minute / hour / day / month / year, 2^31 s, the i64-ns limit, up to year 8999, random, odd sub-second parts) whose defaults must be exactly (now+1h, now, now). Plus 3000 (thorough 40000) PAIRS of builders (same or different protocols) alive at once on one thread with their operations interleaved in a seeded order: each must behave exactly as if it were alone. Plus 4000 (thorough 60000) barrier-released ROUNDS of up to 8 builders on DIFFERENT threads at once (custom claim names new to the process in every round, shared by the threads of the round), each judged as if alone. Every token of every successful build (first and later builds of one builder) is read back and compared with a state machine written from the property: exp present iff not acknowledged; default exp == creation + 3600.000000000 s, default iat == default nbf within the clock bracket taken around the run (5 ms slack); caller-supplied exp/iat/nbf values present. distinct_nontrivial = distinct (protocol, word, build number) that built and conformed; caller-supplied instants lie on both sides of the creation time and of creation + 1 h";
+pub const RULE_C17: &str = "call words over {set_claim(k) for k in exp,nbf,iat,iss,sub,aud,jti,a,b,userId,Role,role; acknowledge; set_footer; build} (a final build appended): ALL words up to length 4 (thorough 5) on v4.local, seeded random words up to length 40 on all 8 protocols; 3000 (thorough 40000) PAIRS of builders (same or different protocols) alive at once on one thread with their operations interleaved in a seeded order, each judged as if alone; 4000 (thorough 60000) barrier-released ROUNDS of up to 8 builders on DIFFERENT threads at once (custom claim names new to the process in every round, shared by the threads of the round; half of the setters are custom claims), each judged as if alone; every occurrence of a setter uses a different value. Plus ~45 pairs of DIFFERENT custom keys that collide under FNV-1/1a, the 31-multiplier hash, djb2, CRC-32, byte sums, truncation (8..256 bytes, u8/u16 characters), NFC/NFD or an embedded NUL: setting both is not a repetition, setting one of them again is; 255/256/257/600 distinct keys on one builder, then one of them again. Model: once any key has been supplied twice every build must fail with the duplicate-claim error naming one of the duplicated keys; otherwise every build must succeed and carry the caller's values; exp supplied after the acknowledgement may be refused as duplicate or ignored. distinct_nontrivial = distinct (protocol, word, build number, outcome class)";
